@@ -63,37 +63,37 @@ type Contract struct {
 	ModSrc      []string
 	ModWhen     []Expr // parallel to Modifies: nil = unconditional; else the target may be modified only when the condition (over the entry state) holds
 	// panics: "" unspecified, "never", "only_if", "iff", "any"
-	PanicMode  string
-	PanicCond  Expr
-	PanicSrc   string
-	PanicLabel string
-	Pure       bool
+	PanicMode     string
+	PanicCond     Expr
+	PanicSrc      string
+	PanicLabel    string
+	Pure          bool
 	Deterministic bool
-	DetLabel   string
-	Assumed    bool
-	NoInline   bool
-	Loops      map[int]*LoopSpec
+	DetLabel      string
+	Assumed       bool
+	NoInline      bool
+	Loops         map[int]*LoopSpec
 	// CallAsserts: "at call F@n assert [label] expr" — assertions over the function's own locals, checked right before
 	// the n-th (source order) call of F in this function; key "call:F@n"
 	CallAsserts map[string][]*Clause
 	// CallInvariants: "at call F@n invariant [label] expr" — invariant of the function value(s) the callee may run
 	// (`modifies effects(f)`): holds before the call, is preserved by one run of f, holds after the call
 	CallInvariants map[string][]*Clause
-	callSeen    map[string]bool
-	Props      map[string]bool // property ids mentioned by labels
+	callSeen       map[string]bool
+	Props          map[string]bool // property ids mentioned by labels
 	// StrongProps: property ids mentioned by labels of clauses OTHER than `deterministic` (functional clauses)
 	StrongProps map[string]bool
-	Obj        *types.Func
-	recvExpr   ast.Expr
-	funcName   string
-	Sig        *types.Signature
-	funcType   string // named func type for "functype" contracts
+	Obj         *types.Func
+	recvExpr    ast.Expr
+	funcName    string
+	Sig         *types.Signature
+	funcType    string // named func type for "functype" contracts
 	// Alts: further assumed contracts of the same (interface) method, written by different work areas for different
 	// dynamic types of an interface-typed parameter (each restricted by `requires typeof(p) == type(T)`); the call site
 	// picks the one whose accepted types contain the statically known dynamic type of the argument (see pickAlt)
-	Alts []*Contract
-	viaVar     bool   // contract for calls through a package-level variable of function type (funcType = its name)
-	closure    bool   // contract of an anonymous function (written Parent__N)
+	Alts    []*Contract
+	viaVar  bool // contract for calls through a package-level variable of function type (funcType = its name)
+	closure bool // contract of an anonymous function (written Parent__N)
 	// Uninterp: the body is never inlined nor verified; calls use the contract only
 }
 
@@ -129,21 +129,21 @@ type Axiom struct {
 }
 
 type SpecDB struct {
-	Contracts map[string]*Contract
-	Ghosts    map[string]*GhostFunc
-	GhostVars map[string]*GhostVar
-	Axioms    []*Axiom
-	Opaque    []opaqueDecl
-	ZeroInit  map[string]*zeroInit // type string -> fact about a freshly allocated object ("this")
-	zeroDecls []zeroDecl
-	Immutable map[string]bool // type strings whose referents are never modified (refs are values)
-	Handles   map[string]bool // type strings of opaque values that give access to mutable world state
+	Contracts  map[string]*Contract
+	Ghosts     map[string]*GhostFunc
+	GhostVars  map[string]*GhostVar
+	Axioms     []*Axiom
+	Opaque     []opaqueDecl
+	ZeroInit   map[string]*zeroInit // type string -> fact about a freshly allocated object ("this")
+	zeroDecls  []zeroDecl
+	Immutable  map[string]bool // type strings whose referents are never modified (refs are values)
+	Handles    map[string]bool // type strings of opaque values that give access to mutable world state
 	Allocators map[string]bool // ghost vars that only grow (see `allocator`)
 	// Layered: ghost variables indexed (first key) by store layer; viewEq / viewEqOld / view(l) range over them
 	Layered []string
-	Errors    []string
-	Skipped   []string
-	Files     []string
+	Errors  []string
+	Skipped []string
+	Files   []string
 }
 
 type zeroInit struct {
